@@ -37,7 +37,7 @@ static long g_includer_ref;       // identity of the including file as it was re
 static Filename vu_file_dirname_filename() { Filename d; d._id = __CPROVER_uninterpreted_path_dirname(g_includer); return d; }
 static Filename vu_file_dirname_filename_as_referenced() { Filename d; d._id = __CPROVER_uninterpreted_path_dirname(g_includer_ref); return d; }
 //@extract src/cppparser/cppPreprocessor.cxx CPPPreprocessor::CPPPreprocessor
-//@extract src/cppparser/cppPreprocessor.cxx CPPPreprocessor::find_include "subst1=@get_file\(\)\._(filename\w*)\.get_dirname\(\)@vu_file_dirname_\1()@"
+//@extract src/cppparser/cppPreprocessor.cxx CPPPreprocessor::find_include "subst1=@(?:get_file\(\)|includer|file|this_file)\._(filename\w*)\.get_dirname\(\)@vu_file_dirname_\1()@"
 
 #define JOIN(d, b) __CPROVER_uninterpreted_path_join((d), (b))
 #define EXISTS(p) __CPROVER_uninterpreted_path_exists(p)
